@@ -60,6 +60,35 @@ def check_class(ctx, ir, cls, sigs):
             ok = site_ok(a)
             ctx.ob('C20.solicited', '%s.%s#%d' % (cls, sig.replace('self.interface.', '').replace('self.', ''), i), ok, a.loc,
                    'a transmission may only be started by a token-derived, gap-delayed strobe: %s' % q.fmt(a)[:300])
+    # one response per strobe: no valuation lets the same cycle request a handshake AND start a data packet (two
+    # transmitters driving the one-hot transmit multiplexer at once put a malformed packet on the bus)
+    from ..fsm import lit_atoms, assignments, holds
+    def own(a):             # a constant raise written here, not the forwarding of another module's request
+        return q.is_one(getattr(a, 'unfolded', a).rhs)
+
+    def strobes_of(a):
+        return {x for x, p_ in q.atoms(a) if p_ and any(x.endswith(s_) or ('.' + s_) in x for s_ in STROBES)}
+    hs = [a for sg in sigs if 'handshakes_out' in sg for a in q.raises(ir, sg) if own(a)]
+    tv = [a for sg in sigs if sg.endswith('tx.valid') for a in q.raises(ir, sg) if own(a)]
+    clash = None
+    for h in hs:
+        for t in tv:
+            if h.state is not None and t.state is not None and h.state != t.state:
+                continue
+            if not (strobes_of(h) & strobes_of(t)):
+                continue            # different token-derived strobes (data stage / status stage) never coincide
+            ats = sorted({x for it in (h, t) for l in it.guard for x in lit_atoms(l)})
+            if len(ats) > 14:
+                continue
+            if any(holds(h.guard, g) and holds(t.guard, g) for g in assignments(ats)):
+                # a later unconditional/conditional clear of one of them in the same context may still win: last assignment wins
+                later = [c for sg in (h.lhs.canon(), t.lhs.canon()) for c in ir.drivers(sg, exact=True)
+                         if q.is_zero(c.rhs) and c.order > max(h.order, t.order) and c.state in (None, h.state, t.state)]
+                if not later and clash is None:
+                    clash = (h, t)
+    if hs and tv:
+        ctx.ob('C20.one-response', '%s.handshake-vs-data' % cls, clash is None, clash[0].loc if clash else hs[0].loc,
+               'one cycle both requests a handshake and starts a data packet: %s' % ([q.fmt(x)[:200] for x in clash] if clash else None))
     return n
 
 
